@@ -165,6 +165,32 @@ theorem oracle_vote_once_partial (p : Params) (ops : List Op) (hops : NoRebond p
   have := vinv_reach p ops hops
   exact ⟨this.v2.1, this.v2.2, this.v1⟩
 
+/-- on a tree whose `UnbondedOracle` keeps the per-oracle last nonce nothing is ever retired -/
+theorem retired_reach (hk : unbondDeletesLastNonce = false) (p : Params) (ops : List Op) : (reach p ops).retired = [] := by
+  have : ∀ (s : State), s.retired = [] → (run s ops).retired = [] := by
+    induction ops with
+    | nil => intro s h; exact h
+    | cons op r ih => intro s h; exact ih _ (retired_step s op hk h)
+  exact this _ rfl
+
+/-- FULL STRENGTH (no hypothesis on the history; holds because the extractor reads that `UnbondedOracle` keeps
+`LastEventNonceByOracle` — the repair `fix: an oracle that bonds again cannot vote twice…`; if the deletion comes back this
+stops checking and `oracle_vote_once_false` applies).  In every reachable state — all interleavings of claims with
+competing hashes, bond, add-delegate, edit-bridger, slashing end blocks, governance updates, unbond, RE-BOND, (re-entrant)
+deferred execution — no vote list has a duplicate, an oracle has voted for at most one claim hash per nonce, and every
+vote sits at a nonce not above the voter's stored last nonce. -/
+theorem oracle_vote_once (p : Params) (ops : List Op) :
+    (∀ a ∈ (reach p ops).atts, a.votes.Nodup) ∧
+    (∀ a ∈ (reach p ops).atts, ∀ b ∈ (reach p ops).atts, ∀ o, a.nonce = b.nonce → o ∈ a.votes → o ∈ b.votes → a.hash = b.hash) ∧
+    (∀ a ∈ (reach p ops).atts, ∀ o ∈ a.votes, ∃ v, (reach p ops).lastNonce.get o = some v ∧ a.nonce ≤ v) := by
+  have hk : unbondDeletesLastNonce = false := by decide
+  obtain ⟨h1, h2, h3⟩ := oracle_vote_once_partial p ops (Or.inl hk)
+  refine ⟨h1, h2, ?_⟩
+  intro a ha o ho
+  rcases h3 a ha o ho with h | h
+  · exact h
+  · rw [retired_reach hk] at h; cases h
+
 /-- the history of DESIGN §6-H: oracle 1 votes for nonce 1, is removed by governance, unbonds (its last nonce is deleted),
 is listed again, bonds again and — through the absent-key fallback — votes for nonce 1 a second time -/
 def rebondWitness : List Op :=
